@@ -99,8 +99,11 @@ def signature(r):
     return sig, detail
 
 
+DRIFT_SAMPLES = []
+
+
 def tgt_side(tags):
-    return sorted((t[0], t[1], t[2], t[3]) for t in tags if t[0] != "src")
+    return sorted(tuple(t) for t in tags if t[0] != "src" or t[1].startswith("mirror/"))
 
 
 def drift_of(scn, events):
@@ -122,8 +125,15 @@ def drift_of(scn, events):
     for i, (p, e) in enumerate(zip(pred, ends)):
         if p["exit"] != (0 if e["exit"] == 0 else 1):
             out.append("exit")
-        if sorted(tuple(x) for x in p["tags"]) != tgt_side(e["tags"]):
+        ps, os_ = set(tuple(x) for x in p["tags"]), set(tgt_side(e["tags"]))
+        if {x[:4] for x in ps} != {x[:4] for x in os_} or any(x[4] == 1 and x not in os_ for x in ps):
             out.append("tags")
+            DRIFT_SAMPLES.append({"id": scn["id"], "run": i + 1, "mode": e["mode"], "only_predicted": sorted(ps - os_)[:6],
+                                  "only_observed": sorted(os_ - ps)[:6]})
+        elif ps != os_:
+            # a holed image was completed although the design left it alone (a refresh copy recurses into the
+            # layers when the source manifest had to be fetched with GET): more than was predicted, not drift
+            out.append("+repaired")
         elif p["nw"] != nputs[i]:
             out.append("writes")
     return out
@@ -203,7 +213,7 @@ def run(ctx):
     scn_file = ctx.path("c18", "scn.jsonl")
     with open(scn_file, "w") as f:
         for s in run_scns:
-            f.write(json.dumps({k: s[k] for k in ("id", "conf", "src", "tgt", "steps", "page")}) + "\n")
+            f.write(json.dumps({k: s[k] for k in ("id", "conf", "src", "tgt", "steps", "env")}) + "\n")
 
     # 3. the real binary
     out = ctx.path("c18", "traces.jsonl")
@@ -216,6 +226,8 @@ def run(ctx):
     drift = {}
     exact = 0
     kinds = set()
+    extra_repairs = 0
+    env_seen = {}
     for t in load_traces(out):
         m = t.get("meta", {})
         if "timeout" in m:
@@ -232,6 +244,9 @@ def run(ctx):
                 modes[e["mode"]] = modes.get(e["mode"], 0) + 1
         if not s.get("nodrift"):
             d = drift_of(s, t["events"])
+            if "+repaired" in d:
+                extra_repairs += 1
+                d = [x for x in d if x != "+repaired"]
             if d:
                 for k in set(d):
                     drift[k] = drift.get(k, 0) + 1
@@ -241,6 +256,9 @@ def run(ctx):
         kinds.add(json.dumps([c["parallel"] > 0, [[e["type"], len(e["allow"]), len(e["deny"]), e["platform"], e["mts"], e["backup"],
                                                    e["referrers"], e["digestTags"], e["fastCheck"], e["force"]] for e in c["entries"]],
                               [st["mode"] or st["op"] for st in s["steps"]]]))
+        for k, v in s["env"].items():
+            env_seen.setdefault(k, {})
+            env_seen[k][str(v)] = env_seen[k].get(str(v), 0) + 1
 
     # 4. trace validation against (P)
     rejected = []
@@ -259,7 +277,7 @@ def run(ctx):
         ev = r["event"] or {}
         what = "%s (trace %s, %s event %s)" % (detail, t["id"], ev.get("ev"), json.dumps(
             {k: ev[k] for k in ev if k not in ("tags", "repos")})[:300])
-        ctx.report(sig, what, {"scenario": {k: t["scenario"][k] for k in ("id", "conf", "src", "tgt", "steps", "page")},
+        ctx.report(sig, what, {"scenario": {k: t["scenario"][k] for k in ("id", "conf", "src", "tgt", "steps", "env")},
                                "events": t["events"], "rejected_at": r["line"], "stderr": t["stderr"],
                                "cmd": "tools/check C18 --replay <this file>"})
 
@@ -328,7 +346,8 @@ def run(ctx):
         "tlc_scenarios": len(scns), "scenarios_run": len(run_scns), "runs_by_mode": modes,
         "finding_class_scenarios": {"alt_filter": n_alt, "platform_force": n_force, "validated_separately": len(suspects),
                                   "respelled_with_group": respelled, "not_run": len(scns) - len(run_scns)},
-        "design_prediction_exact": exact, "design_drift": drift,
+        "design_prediction_exact": exact, "design_drift": drift, "completed_beyond_prediction": extra_repairs,
+        "environment_values_run": env_seen, "design_drift_samples": DRIFT_SAMPLES[:5],
         "expected_counterexamples": known_cex,
         "rejected": len(rejected),
         "binary": "regsync built from the tree under test (go build -tags verif ./cmd/regsync), exec'ed against "
@@ -349,4 +368,6 @@ def run(ctx):
     ]
     if drift:
         vlib.log("C18: design-spec drift (not a violation): %s" % drift)
+        for d in DRIFT_SAMPLES[:5]:
+            vlib.log("  drift sample: %s" % json.dumps(d))
     return "model_checking", cov, assumptions
